@@ -6,8 +6,10 @@ from harness import truth
 from harness import worlds
 
 PROP = "C13"
-LEAN_MODULE = "Ztr.Props.C13"
-THEOREMS = ['Ztr.Result.C13_restored_between_tests', 'Ztr.Result.C13_never_replaced', 'Ztr.Result.C13_quiet_when_ok']
+LEAN_MODULE = "Ztr.Props.C13B"
+LEAN_DEPS = ["Ztr.Props.C13"]
+THEOREMS = ['Ztr.Result.C13_restored_between_tests', 'Ztr.Result.C13_never_replaced', 'Ztr.Result.C13_quiet_when_ok',
+            'Ztr.Result.C13_attributed_test', 'Ztr.Result.C13_attribution', 'Ztr.Result.C13_failing_shown']
 RULE = ("worlds whose tests write unique tokens to sys.stdout / sys.stderr / .buffer, with and without trailing "
         "newline, in every phase; all 17 outcome kinds incl. tests producing several result events, in random "
         "sequences; --buffer on and off; layer testSetUp/testTearDown hooks record whether the std streams are the "
